@@ -11,7 +11,9 @@ Scenario families (every combination of the listed factors is generated):
  (loop)  closures created in loop bodies (for / while) over the item variable and a
          body local, read (and written) after the loop, with 0-2 extra captured vars;
  (shadow) shadowing through nested blocks, parameters and inner functions;
- (subset) 3 variables, every subset captured by an inner function (boxed / unboxed).
+ (subset) 3 variables, every subset captured by an inner function (boxed / unboxed);
+ (mixed) a function with 1-3 captures from an enclosing function and 1-3 own boxed locals:
+         every ordered pair (X, Y) as adjacent statements `X = v; let seen = Y;`.
 Oracle: reference evaluator (cells shared by reference, fresh per declaration execution).
 """
 import itertools, time
@@ -191,6 +193,40 @@ def subset_scenarios():
     return out
 
 
+def mixed_scenarios():
+    """a function with captures from an enclosing function AND own boxed locals (index spaces that can coincide numerically): for every ordered pair (X, Y)
+    of its variables the statements `X = value; let seen = Y;` are adjacent"""
+    out = []
+    for nout in (1, 2, 3):
+        for nloc in (1, 2, 3):
+            for with_self in (False, True):
+                outs = ["o%d" % k for k in range(nout)]
+                locs = ["l%d" % k for k in range(nloc)]
+                allv = outs + locs + (["p0"] if True else [])
+                body = [["let", l, S("L" + l)] for l in locs]
+                # own locals and the parameter are captured (boxed) by a nested lambda
+                body.append(["let", "peek", lam([], [["return", ["list", [V(x) for x in locs + ["p0"]]]]])])
+                k = 0
+                for x in allv:
+                    for y in allv:
+                        if x == y:
+                            continue
+                        k += 1
+                        body += [["expr", ["assign", x, S("w%d" % k)]], ["let", "seen%d" % k, V(y)], ["print", [S("%s>%s" % (x, y)), V("seen%d" % k), V(x)]]]
+                body += [["print", [S("peek"), call("peek")]], ["return", ["list", [V(x) for x in allv]]]]
+                if with_self:
+                    inner = ["class", "K", None, [("method", "init", [], [["expr", ["set", ["self"], "tag", S("tag")]]]),
+                                                  ("method", "run", ["p0"], [["let", "me", lam([], ["get", ["self"], "tag"], True)]] + body)]]
+                    callinner = inv(call("K"), "run", S("P"))
+                else:
+                    inner = ["fn", "inner", ["p0"], body]
+                    callinner = call("inner", S("P"))
+                prog = [["fn", "outer", outs, [inner, ["let", "r", callinner], ["return", ["list", [V("r")] + [V(o) for o in outs]]]]],
+                        ["print", [call("outer", *[S("O%d" % i) for i in range(nout)])]]]
+                out.append(("mixed", nout, nloc, with_self, prog))
+    return out
+
+
 class C02(Check):
     id = "C02"
     level = "exploration"
@@ -221,6 +257,8 @@ class C02(Check):
         for s in shadow_scenarios():
             yield s
         for s in subset_scenarios():
+            yield s
+        for s in mixed_scenarios():
             yield s
 
     def ast(self, spec):
